@@ -1,5 +1,5 @@
 (** Proofs about Model/Announce.v. *)
-From Coq Require Import List Bool NArith ZArith Lia ZifyN ZifyNat ZifyBool.
+From Coq Require Import List Bool NArith ZArith Lia ZifyN ZifyNat ZifyBool Permutation.
 From Coq.Strings Require Import Byte.
 From MM Require Import Lib.Bytes Lib.Codec Model.Frames Model.Announce Proofs.FramesProofs Proofs.FramesIrregular Proofs.NodeInfoProofs.
 Import ListNotations.
@@ -368,3 +368,209 @@ Example entries_example :
   forallb entry_ok [ECidr false (bytes_of_Ns [10; 0; 0; 0]) 8 0; EDomain (bytes_of_Ns [97; 46; 98]) true 3;
                     EForward (bytes_of_Ns [107]) (bytes_of_Ns [116; 58; 56; 48]) 0; EAgent id_a 0] = true.
 Proof. reflexivity. Qed.
+
+(** * Re-flooding: metric + 1, same routes otherwise *)
+
+Lemma bump_size : forall r, route_wire_size (bump_metric r) = route_wire_size r.
+Proof. intros [f [pl [pre m]]]. reflexivity. Qed.
+
+Lemma bump_wf : forall r, wfb Route_c r = true -> wfb Route_c (bump_metric r) = true.
+Proof.
+  intros [f [pl [pre m]]] W. cbn [bump_metric]. cbn [wfb Route_c depc pairc fst snd] in *.
+  apply andb_prop in W. destruct W as [W1 W]. apply andb_prop in W. destruct W as [W2 W].
+  apply andb_prop in W. destruct W as [W3 _]. rewrite W1, W2, W3. cbn [andb].
+  cbn [wfb u16 uint]. apply N.ltb_lt. change (256 ^ N.of_nat 2) with 65536. unfold two16.
+  apply N.mod_lt. discriminate.
+Qed.
+
+Lemma bump_group : forall g, forallb (wfb Route_c) g = true -> group_ok g ->
+  forallb (wfb Route_c) (map bump_metric g) = true /\ group_ok (map bump_metric g).
+Proof.
+  intros g W [Gc Gs]. split.
+  - induction g as [|r g IH]; [reflexivity|]. cbn [forallb map] in *. apply andb_prop in W.
+    destruct W as [A B]. rewrite (bump_wf r A). cbn [andb]. apply IH; [exact B| |];
+      cbn [lenN sizes fold_right] in *; fold (sizes g) in *; lia.
+  - split.
+    + rewrite !lenN_length in *. rewrite map_length. exact Gc.
+    + assert (E : sizes (map bump_metric g) = sizes g).
+      { clear. induction g as [|r g IH]; [reflexivity|]. cbn [map sizes fold_right].
+        fold (sizes (map bump_metric g)). fold (sizes g). rewrite IH, bump_size. reflexivity. }
+      rewrite E. exact Gs.
+Qed.
+
+(** what a forwarding agent emits for a received group decodes, at the next
+    agent, to that group with every metric one higher, under the origin's
+    sequence number, and still fits a frame *)
+Theorem reflood_intact : forall local origin name seq g path seenby,
+  lenN origin = 16 -> lenN name < 256 -> seq < two64 ->
+  wfb idlist (local :: path) = true -> wfb idlist (seenby ++ [local]) = true ->
+  forallb (wfb Route_c) g = true -> group_ok g ->
+  exists p, reflood local origin name seq g path seenby = Some p /\
+            decode_RA p = Some (origin, (name, (seq, (map bump_metric g,
+                             (local :: path, (Some (false, enc idlist (local :: path)), seenby ++ [local])))))) /\
+            lenN p <= max_payload.
+Proof.
+  intros local origin name seq g path seenby Ho Hn Hs Wp Wsb Wg G.
+  destruct (bump_group g Wg G) as [Wg' G']. unfold reflood.
+  exact (advertisement_intact origin name seq (map bump_metric g) (local :: path) (seenby ++ [local]) Ho Hn Hs Wp Wsb Wg' G').
+Qed.
+
+(** * Replaying a stored group *)
+
+(** a stored group that fits is replayed as ONE advertisement, under the
+    origin's sequence number, and decodes to exactly its routes *)
+Theorem replay_group_intact : forall origin name seq g path,
+  lenN origin = 16 -> lenN name < 256 -> seq < two64 ->
+  wfb idlist path = true -> forallb (wfb Route_c) g = true -> group_ok g ->
+  exists p, replay_foreign origin name seq g path = [Some p] /\
+            decode_RA p = Some (origin, (name, (seq, (g, (path, (Some (false, enc idlist path), path)))))) /\
+            lenN p <= max_payload.
+Proof.
+  intros origin name seq g path Ho Hn Hs Wp Wg G.
+  destruct (advertisement_intact origin name seq g path path Ho Hn Hs Wp Wp Wg G) as (p & E & D & L).
+  exists p. unfold replay_foreign. rewrite (split_routes_fits g G). cbn [replay_groups].
+  split; [f_equal; exact E|]. split; assumption.
+Qed.
+
+(** whatever part of a fitting group is still stored (in whatever order the
+    tables list it) fits as well *)
+Lemma sizes_perm : forall a b, Permutation a b -> sizes a = sizes b.
+Proof.
+  intros a b P. induction P; cbn [sizes fold_right] in *; try fold (sizes l) in *; try fold (sizes l') in *; lia.
+Qed.
+
+Lemma group_ok_part : forall g part rest, Permutation (part ++ rest) g -> group_ok g -> group_ok part.
+Proof.
+  intros g part rest P [Gc Gs]. pose proof (sizes_perm _ _ P) as S. rewrite sizes_app in S.
+  pose proof (Permutation_length P) as L. rewrite app_length in L.
+  split; [rewrite lenN_length in *; lia|lia].
+Qed.
+
+(** * One advertisement per (origin, sequence) in a replay *)
+
+Definition rg_key (g : rgroup) : bytes * N := (fst g, fst (snd g)).
+
+Lemma rg_same_adv_key : forall a b, rg_same_adv a b = true <-> rg_key a = rg_key b.
+Proof.
+  intros [o1 [s1 r1]] [o2 [s2 r2]]. unfold rg_same_adv, rg_key. cbn [fst snd]. split; intros H.
+  - apply andb_prop in H. destruct H as [A B]. apply bytes_eqb_eq in A. apply N.eqb_eq in B. congruence.
+  - injection H as -> ->. rewrite bytes_eqb_refl, N.eqb_refl. reflexivity.
+Qed.
+
+Lemma rg_insert_in : forall g acc x, In x (rg_insert g acc) -> x = g \/ In x acc.
+Proof.
+  intros g. induction acc as [|h t IH]; intros x H; cbn [rg_insert] in H.
+  - destruct H as [H|[]]. left. congruence.
+  - destruct (rg_same_adv g h).
+    + destruct (rg_better g h); destruct H as [H|H].
+      * left. congruence.
+      * right. right. exact H.
+      * right. left. exact H.
+      * right. right. exact H.
+    + destruct H as [H|H]; [right; left; exact H|]. apply IH in H. destruct H as [H|H]; [left; exact H|right; right; exact H].
+Qed.
+
+Lemma rg_insert_keys : forall g acc k,
+  In k (map rg_key (rg_insert g acc)) <-> k = rg_key g \/ In k (map rg_key acc).
+Proof.
+  intros g. induction acc as [|h t IH]; intros k; cbn [rg_insert].
+  - cbn [map In]. split; intros [H|H]; auto; contradiction.
+  - destruct (rg_same_adv g h) eqn:E.
+    + apply rg_same_adv_key in E. destruct (rg_better g h); cbn [map In]; rewrite <- ?E; split; intros H.
+      * destruct H as [H|H]; [left; congruence|right; right; exact H].
+      * destruct H as [H|[H|H]]; [left; congruence|left; congruence|right; exact H].
+      * destruct H as [H|H]; [left; congruence|right; right; exact H].
+      * destruct H as [H|[H|H]]; [left; congruence|left; congruence|right; exact H].
+    + cbn [map In]. rewrite IH. split; intros H.
+      * destruct H as [H|[H|H]]; [right; left; exact H|left; exact H|right; right; exact H].
+      * destruct H as [H|[H|H]]; [right; left; exact H|left; exact H|right; right; exact H].
+Qed.
+
+Lemma rg_insert_nodup : forall g acc, NoDup (map rg_key acc) -> NoDup (map rg_key (rg_insert g acc)).
+Proof.
+  intros g. induction acc as [|h t IH]; intros ND; cbn [rg_insert].
+  - cbn [map]. constructor; [intros []|constructor].
+  - inversion ND as [|x l Nx Nl]; subst. destruct (rg_same_adv g h) eqn:E.
+    + pose proof (proj1 (rg_same_adv_key g h) E) as K. destruct (rg_better g h); cbn [map].
+      * constructor; [rewrite K; exact Nx|exact Nl].
+      * exact ND.
+    + cbn [map]. constructor; [|exact (IH Nl)].
+      intros C. apply rg_insert_keys in C. destruct C as [C|C]; [|exact (Nx C)].
+      assert (rg_same_adv g h = true) by (apply rg_same_adv_key; congruence). congruence.
+Qed.
+
+Lemma select_groups_spec : forall gs,
+  NoDup (map rg_key (select_groups gs)) /\
+  (forall x, In x (select_groups gs) -> In x gs) /\
+  (forall k, In k (map rg_key gs) -> In k (map rg_key (select_groups gs))).
+Proof.
+  induction gs as [|g gs (ND & Sub & Cov)].
+  - cbn. repeat split; [constructor|tauto|tauto].
+  - change (select_groups (g :: gs)) with (rg_insert g (select_groups gs)). repeat split.
+    + exact (rg_insert_nodup g _ ND).
+    + intros x H. apply rg_insert_in in H. destruct H as [H|H]; [left; congruence|right; exact (Sub x H)].
+    + intros k H. apply rg_insert_keys. cbn [map In] in H. destruct H as [H|H]; [left; congruence|right; exact (Cov k H)].
+Qed.
+
+(** hypotheses on one stored group *)
+Definition rgroup_ok (name_of : bytes -> bytes) (g : rgroup) : Prop :=
+  let '(o, (s, (p, rs))) := g in
+  lenN o = 16 /\ lenN (name_of o) < 256 /\ s < two64 /\ wfb idlist p = true /\
+  forallb (wfb Route_c) rs = true /\ group_ok rs.
+
+Lemma replay_list_spec : forall name_of (sel : list rgroup), Forall (rgroup_ok name_of) sel ->
+  exists payloads,
+    concat (map (fun g : rgroup => let '(o, (s, (p, rs))) := g in replay_foreign o (name_of o) s rs p) sel) = map Some payloads /\
+    adv_keys payloads = map rg_key sel /\
+    learned payloads = concat (map (fun g : rgroup => snd (snd (snd g))) sel) /\
+    Forall (fun p => lenN p <= max_payload) payloads.
+Proof.
+  intros name_of. induction sel as [|g sel IH]; intros F.
+  - exists []. repeat split; constructor.
+  - inversion F as [|g0 l Hg Fl]; subst. destruct (IH Fl) as (ps & E & K & L & S).
+    destruct g as [o [s [p rs]]]. destruct Hg as (Ho & Hn & Hs & Wp & Wr & G).
+    destruct (replay_group_intact o (name_of o) s rs p Ho Hn Hs Wp Wr G) as (pl & R & D & Lp).
+    exists (pl :: ps). cbn [map concat]. rewrite R, E. cbn [app map].
+    split; [reflexivity|]. split.
+    + unfold adv_keys in *. cbn [map concat]. rewrite D, K. reflexivity.
+    + split; [unfold learned in *; cbn [map concat]; rewrite D, L; reflexivity|constructor; assumption].
+Qed.
+
+(** the foreign part of a full-table replay: one advertisement per selected
+    group, no two with the same (origin, sequence) - so the receiver's seen
+    cache drops none -, every (origin, sequence) of the table is represented,
+    and what the receiver decodes is exactly the routes of the selected groups *)
+Theorem replay_table_intact : forall name_of gs,
+  Forall (rgroup_ok name_of) gs ->
+  exists payloads,
+    replay_table name_of gs = map Some payloads /\
+    adv_keys payloads = map rg_key (select_groups gs) /\
+    NoDup (adv_keys payloads) /\
+    (forall k, In k (map rg_key gs) -> In k (adv_keys payloads)) /\
+    learned payloads = concat (map (fun g : rgroup => snd (snd (snd g))) (select_groups gs)) /\
+    Forall (fun p => lenN p <= max_payload) payloads.
+Proof.
+  intros name_of gs F. destruct (select_groups_spec gs) as (ND & Sub & Cov).
+  assert (Fs : Forall (rgroup_ok name_of) (select_groups gs)).
+  { apply Forall_forall. intros x H. apply (proj1 (Forall_forall _ _) F). exact (Sub x H). }
+  destruct (replay_list_spec name_of (select_groups gs) Fs) as (ps & E & K & L & S).
+  exists ps. unfold replay_table. rewrite E, K. repeat split; try assumption.
+Qed.
+
+(** non-vacuity and the old behaviour: two groups of one advertisement (the
+    presence route learned over a second path) are replayed as one advertisement *)
+Definition id_b : bytes := repeat x0b 16.
+Definition id_c : bytes := repeat x0c 16.
+Definition two_path_table : list rgroup :=
+  [ (id_a, (5, ([id_b; id_a], [(fam_ipv4, (32, (be_put 4 167772161, 1))); (fam_agent, (0, (id_a, 1)))])));
+    (id_a, (5, ([id_c; id_b; id_a], [(fam_agent, (0, (id_a, 2)))]))) ].
+Example two_path_table_ok :
+  Forall (rgroup_ok (fun _ => [])) two_path_table /\
+  map rg_key two_path_table = [(id_a, 5); (id_a, 5)] /\
+  map rg_key (select_groups two_path_table) = [(id_a, 5)] /\
+  length (replay_table (fun _ => []) two_path_table) = 1%nat.
+Proof.
+  split.
+  - repeat constructor; vm_compute; try reflexivity; intros H; discriminate H.
+  - vm_compute. repeat split.
+Qed.
